@@ -51,4 +51,38 @@ theorem count_keys_plain (a : Api) (hi : Inv a.s) :
     (match (a.exec .keys).2.res with | .out (.list l) => l = a.s.order | _ => False) ∧
     (a.exec .count).1 = a ∧ (a.exec .keys).1 = a := by
   simp [Api.exec, count, keys, hi.notWedged]
+/-- the waiting plain call (`blocking_lock`/`async_lock` up to its first poll): a guard exactly when the key is free, pending exactly when not -/
+theorem lock_wait_plain (a : Api) (hi : Inv a.s) (h k h0 : Nat) (hf : a.s.hs h = none) :
+    ((a.exec (.lock .wait h k .none h0)).2.res.isGuard = true ↔ (absSpec a.s).free k = true) ∧
+    ((match (a.exec (.lock .wait h k .none h0)).2.res with | .pending => True | _ => False) ↔ (absSpec a.s).free k = false) := by
+  have hu := lookup_unit a.s h k hi hf
+  have hi1 := inv_lookup a.s h k hi
+  have hlin := lin_lookup a.s h k hi
+  simp only [evOf, hu, true_and] at hlin
+  show ((a.lock .wait h k .none h0).2.res.isGuard = true ↔ _) ∧ ((match (a.lock .wait h k .none h0).2.res with | .pending => True | _ => False) ↔ _)
+  unfold Api.lock
+  simp only [Nat.zero_add]
+  unfold Api.lockPrelude
+  simp only [hu]
+  cases hm : a.s.ent k with
+  | none =>
+    have hhs : (lookup a.s h k).1.hs h = some ⟨k, a.s.nextE, .holding⟩ := by
+      unfold lookup
+      simp [hi.notWedged, hf, hm, upd]
+    simp [hhs, Spec.free, absSpec, heldOf, waitingOf, hm, Res.isGuard]
+  | some m =>
+    have hhs : (lookup a.s h k).1.hs h = some ⟨k, m.eid, .replica⟩ := by
+      unfold lookup
+      simp only [hi.notWedged, Bool.false_eq_true, ↓reduceIte, hf, Option.isSome_none, hm]
+      rw [touch_hs]; simp [State.clone, upd]
+    simp only [hm, reduceCtorEq, ↓reduceIte, applyEvs, Option.some.injEq] at hlin
+    have ht := enqueue_iff_free _ hi1 h _ hhs rfl
+    simp only at ht
+    rw [← hlin] at ht
+    simp only [hhs, reduceCtorEq, ↓reduceIte]
+    rw [← ht.1, ← ht.2]
+    cases hto : (enqueue (lookup a.s h k).1 h).2 <;> simp [Res.isGuard]
+    rename_i b
+    cases b <;> simp
+
 end Lockable
